@@ -133,10 +133,17 @@ func keyFor(t *rapid.T, height int, pool []felt.Felt) felt.Felt {
 
 func TestPropTrieRootIsFunctionOfSet(t *testing.T) {
 	stats.Check(t, stats.Budget{Quick: 2500, Thorough: 20000},
-		"put/overwrite/delete(zero)/zero-absent/commit/reopen/hash sequences on core/trie and core/trie2 (heights 251, 64, 8; Pedersen, Poseidon) vs recursive reference MPT; non-trivial = sequence contains a structural event on the model (edge split, collapse after delete, re-insert after delete, zero write to absent key, reopen between updates)",
+		"put/overwrite/delete(zero)/zero-absent/commit/reopen/hash sequences on core/trie and core/trie2 (heights 251, 64, 8; Pedersen, Poseidon) vs recursive reference MPT; 1 case in 32 mixes in up to two large batches (99..300 updates, thorough up to 1000: inserts/overwrites/deletes over spread, sequential, clustered, deep-prefix key sets) committed in ONE commit around the trie2 parallel collector/hasher threshold of 100 pending updates, then reopens and goes on with small ops and reads on the batch's keys; non-trivial = sequence contains a structural event on the model (edge split, collapse after delete, re-insert after delete, zero write to absent key, reopen between updates) or a commit of more than 100 pending updates",
 		func(rt *rapid.T, c *stats.Case) {
 			height := rapid.SampledFrom([]int{251, 251, 64, 8, 8, 3}).Draw(rt, "height")
 			posei := rapid.Bool().Draw(rt, "poseidon")
+			// SIZE: one case in thirty-two performs large single commits (sizes around the trie2 parallel-collector /
+			// parallel-hasher threshold of 100 pending updates, see large_test.go) mixed with the small structural ops
+			large := gen.Uniform(rt, 32, "large") == 0
+			if large {
+				height = rapid.SampledFrom([]int{251, 251, 64, 251, 8}).Draw(rt, "heightLarge")
+				c.Label("large-case")
+			}
 			c.Fp("h%d p%v", height, posei)
 			c.Labelf("height-%d", height)
 			var pool []felt.Felt
@@ -170,8 +177,28 @@ func TestPropTrieRootIsFunctionOfSet(t *testing.T) {
 			model := map[felt.Felt]felt.Felt{}
 			deleted := map[felt.Felt]bool{}
 
+			// the reference root is recomputed only when the model changed (it costs 2 hashes per key)
+			modelVer, wantVer := 0, -1
+			var wantMemo felt.Felt
+			refRoot := func() felt.Felt {
+				if wantVer != modelVer {
+					wantMemo, wantVer = ref.MPT(height, refHash(posei), model), modelVer
+				}
+				return wantMemo
+			}
+			// updates applied to the trie2 object since its last Commit / Hash (what trie2 compares with 100)
+			pendU, pendH := 0, 0
+			var extra []felt.Felt // keys of the large commits: the small ops keep touching that region
+			bulks, largeCommitted := 0, false
+			noteHash := func() {
+				if pendH > trie2Threshold {
+					c.Label("trie2-hash-pending>T")
+				}
+				pendH = 0
+			}
 			check := func(where string) {
-				want := ref.MPT(height, refHash(posei), model)
+				want := refRoot()
+				noteHash()
 				got, err := ot.tr.Hash()
 				if err != nil {
 					c.Violation("old-trie-hash-error", "%s: core/trie Hash: %v", where, err)
@@ -229,6 +256,9 @@ func TestPropTrieRootIsFunctionOfSet(t *testing.T) {
 				if err := nt.Update(&k, &v); err != nil {
 					c.Violation("trie2-update", "core/trie2 Update(%s,%s): %v", k.String(), v.String(), err)
 				}
+				pendU++
+				pendH++
+				modelVer++
 				if v.IsZero() {
 					if had {
 						structural(k, false)
@@ -244,11 +274,104 @@ func TestPropTrieRootIsFunctionOfSet(t *testing.T) {
 					model[k] = v
 				}
 			}
-			rt.Repeat(map[string]func(*rapid.T){
+			del := func(k felt.Felt, viaDelete bool) {
+				if !viaDelete {
+					put(k, felt.Zero)
+					return
+				}
+				// trie2 has an explicit Delete; the old trie deletes by writing zero
+				if _, err := ot.tr.Put(&k, &felt.Zero); err != nil {
+					c.Violation("old-trie-put", "core/trie Put(%s,0): %v", k.String(), err)
+				}
+				if err := nt.Delete(&k); err != nil {
+					c.Violation("trie2-delete", "core/trie2 Delete(%s): %v", k.String(), err)
+				}
+				pendU++
+				pendH++
+				modelVer++
+				structural(k, false)
+				deleted[k] = true
+				delete(model, k)
+			}
+			drawKey := func(t *rapid.T) felt.Felt {
+				if len(extra) > 0 && rapid.IntRange(0, 2).Draw(t, "fromBulk") == 0 {
+					return extra[rapid.IntRange(0, len(extra)-1).Draw(t, "bulkKey")]
+				}
+				return keyFor(t, height, pool)
+			}
+			commit := func(t *rapid.T) {
+				c.Fp("commit")
+				if err := ot.tr.Commit(); err != nil {
+					c.Violation("old-trie-commit", "core/trie Commit: %v", err)
+				}
+				reopen := rapid.Bool().Draw(t, "reopen")
+				if reopen {
+					c.Label("reopen")
+					if len(model) > 0 {
+						c.NonTrivial("reopen-between-updates")
+					}
+					if rapid.Bool().Draw(t, "flushBatch") {
+						if err := ot.txn.Write(); err != nil {
+							stats.HarnessError("txn write: %v", err)
+						}
+						ot.txn = ot.db.NewIndexedBatch()
+					}
+					if err := ot.open(); err != nil {
+						c.Violation("old-trie-reopen", "core/trie reopen: %v", err)
+					}
+				}
+				// size of this commit as trie2 counts it
+				if pendU >= trie2Threshold-1 {
+					c.Label("trie2-commit-pending:" + sizeClass(pendU))
+				}
+				if pendU > trie2Threshold {
+					c.Label("trie2-commit-pending>T")
+					c.NonTrivial("commit-above-parallel-threshold")
+					largeCommitted = true
+					if reopen {
+						c.Label("large-commit+legacy-reopen")
+					}
+				}
+				noteHash() // Commit hashes first
+				pendU = 0
+				root, nodes := nt.Commit()
+				want := refRoot()
+				if !root.Equal(&want) {
+					c.Violation("trie2-commit-root", "core/trie2 Commit root %s != reference %s", root.String(), want.String())
+				}
+				if persistent {
+					if nodes != nil {
+						b := disk.NewBatch()
+						err := tdb.Update((*felt.StateRootHash)(&root), (*felt.StateRootHash)(&ntRoot), 0, nil, trienode.NewMergeNodeSet(nodes), b)
+						if err == nil {
+							err = b.Write()
+						}
+						if err != nil {
+							c.Violation("trie2-persist", "trie2 node set persist: %v", err)
+						}
+					}
+					ntRoot = root
+					{
+						// a committed trie2 object is unusable by design: always continue on a new trie
+						// opened from the persisted node set (any non-zero state commitment makes New resolve the root)
+						id := trieutils.NewContractTrieID(felt.StateRootHash(gen.F(1)))
+						var err error
+						nt, err = trie2.New(id, uint8(height), hashFn(posei), tdb)
+						if err != nil {
+							c.Violation("trie2-reopen", "core/trie2 reopen: %v", err)
+						}
+					}
+				}
+				check("after-commit")
+			}
+			actions := map[string]func(*rapid.T){
 				"put": func(t *rapid.T) {
-					k := keyFor(t, height, pool)
+					k := drawKey(t)
 					v := gen.NonZeroFelt().Draw(t, "v")
 					c.Fp("put %s %s", k.String(), v.String())
+					if largeCommitted {
+						c.Label("small-op-after-large-commit")
+					}
 					put(k, v)
 				},
 				"deleteExisting": func(t *rapid.T) {
@@ -258,23 +381,13 @@ func TestPropTrieRootIsFunctionOfSet(t *testing.T) {
 					keys := sortedKeys(model)
 					k := keys[rapid.IntRange(0, len(keys)-1).Draw(t, "ki")]
 					c.Fp("del %s", k.String())
-					if rapid.Bool().Draw(t, "viaDelete") {
-						// trie2 has an explicit Delete; the old trie deletes by writing zero
-						if _, err := ot.tr.Put(&k, &felt.Zero); err != nil {
-							c.Violation("old-trie-put", "core/trie Put(%s,0): %v", k.String(), err)
-						}
-						if err := nt.Delete(&k); err != nil {
-							c.Violation("trie2-delete", "core/trie2 Delete(%s): %v", k.String(), err)
-						}
-						structural(k, false)
-						deleted[k] = true
-						delete(model, k)
-					} else {
-						put(k, felt.Zero)
+					if largeCommitted {
+						c.Label("small-op-after-large-commit")
 					}
+					del(k, rapid.Bool().Draw(t, "viaDelete"))
 				},
 				"zeroAny": func(t *rapid.T) {
-					k := keyFor(t, height, pool)
+					k := drawKey(t)
 					c.Fp("zero %s", k.String())
 					put(k, felt.Zero)
 				},
@@ -282,64 +395,69 @@ func TestPropTrieRootIsFunctionOfSet(t *testing.T) {
 					c.Fp("hash")
 					check("hash")
 				},
-				"commit": func(t *rapid.T) {
-					c.Fp("commit")
-					if err := ot.tr.Commit(); err != nil {
-						c.Violation("old-trie-commit", "core/trie Commit: %v", err)
-					}
-					reopen := rapid.Bool().Draw(t, "reopen")
-					if reopen {
-						c.Label("reopen")
-						if len(model) > 0 {
-							c.NonTrivial("reopen-between-updates")
-						}
-						if rapid.Bool().Draw(t, "flushBatch") {
-							if err := ot.txn.Write(); err != nil {
-								stats.HarnessError("txn write: %v", err)
-							}
-							ot.txn = ot.db.NewIndexedBatch()
-						}
-						if err := ot.open(); err != nil {
-							c.Violation("old-trie-reopen", "core/trie reopen: %v", err)
-						}
-					}
-					root, nodes := nt.Commit()
-					want := ref.MPT(height, refHash(posei), model)
-					if !root.Equal(&want) {
-						c.Violation("trie2-commit-root", "core/trie2 Commit root %s != reference %s", root.String(), want.String())
-					}
-					if persistent {
-						if nodes != nil {
-							b := disk.NewBatch()
-							err := tdb.Update((*felt.StateRootHash)(&root), (*felt.StateRootHash)(&ntRoot), 0, nil, trienode.NewMergeNodeSet(nodes), b)
-							if err == nil {
-								err = b.Write()
-							}
-							if err != nil {
-								c.Violation("trie2-persist", "trie2 node set persist: %v", err)
-							}
-						}
-						ntRoot = root
-						{
-							// a committed trie2 object is unusable by design: always continue on a new trie
-							// opened from the persisted node set (any non-zero state commitment makes New resolve the root)
-							id := trieutils.NewContractTrieID(felt.StateRootHash(gen.F(1)))
-							var err error
-							nt, err = trie2.New(id, uint8(height), hashFn(posei), tdb)
-							if err != nil {
-								c.Violation("trie2-reopen", "core/trie2 reopen: %v", err)
-							}
-						}
-					}
-					check("after-commit")
-				},
+				"commit": commit,
 				"get": func(t *rapid.T) {
-					k := keyFor(t, height, pool)
+					k := drawKey(t)
 					c.Fp("get %s", k.String())
 					getAll("get", k)
 				},
 				"": func(t *rapid.T) {},
-			})
+			}
+			if large {
+				// one large batch of updates between two commits: n puts / overwrites / deletes derived from
+				// (kind, key shape, seed), usually committed (and the tries reopened) right away; the small ops go on
+				// afterwards on the reopened tries and keep drawing keys of the batch
+				actions["bulk"] = func(t *rapid.T) {
+					if bulks >= 2 {
+						t.Skip()
+					}
+					bulks++
+					n := bulkSize(t, "bulkN")
+					kind := rapid.SampledFrom([]string{"insert", "insert", "overwrite", "delete", "mixed"}).Draw(t, "bulkKind")
+					shape := rapid.SampledFrom(keyShapes).Draw(t, "bulkShape")
+					seed := rapid.Uint64().Draw(t, "bulkSeed")
+					viaDelete := rapid.Bool().Draw(t, "bulkViaDelete")
+					c.Fp("bulk %d %s %s %x %v", n, kind, shape, seed, viaDelete)
+					c.Label("bulk:" + kind)
+					c.Label("bulk-shape:" + shape)
+					c.Label("bulk-size:" + sizeClass(n))
+					p := &prng{s: seed ^ 0xa5a5}
+					fresh := bulkKeys(shape, seed, n, height)
+					existing := sortedKeys(model)
+					for i := 0; i < n; i++ {
+						op := kind
+						if kind == "mixed" {
+							op = []string{"insert", "overwrite", "delete"}[p.intn(3)]
+						}
+						if len(existing) == 0 {
+							op = "insert"
+						}
+						switch op {
+						case "insert":
+							put(fresh[i], p.value())
+						case "overwrite":
+							put(existing[p.intn(len(existing))], p.value())
+						case "delete": // keys deleted earlier in the batch become zero writes to absent keys
+							k := existing[p.intn(len(existing))]
+							if _, present := model[k]; present {
+								del(k, viaDelete)
+							} else {
+								put(k, felt.Zero)
+							}
+						}
+					}
+					for i := 0; i < len(fresh) && i < 12; i++ {
+						extra = append(extra, fresh[p.intn(len(fresh))])
+					}
+					if rapid.IntRange(0, 5).Draw(t, "bulkCommit") != 0 {
+						commit(t)
+					}
+				}
+			}
+			rt.Repeat(actions)
+			if large && largeCommitted {
+				c.Label("large-commit-then-more-ops-and-final-reads")
+			}
 			check("end")
 			for _, k := range sortedKeys(model) {
 				getAll("end", k)
@@ -347,6 +465,12 @@ func TestPropTrieRootIsFunctionOfSet(t *testing.T) {
 			// metamorphic: same key/value SET inserted in a permuted order into fresh tries gives the same root
 			keys := sortedKeys(model)
 			perm := rapid.Permutation(keys).Draw(rt, "perm")
+			// ... and in a different split into hash/commit batches (large sets: also batches above the threshold)
+			every := 3
+			if len(keys) > 60 {
+				every = rapid.SampledFrom([]int{trie2Threshold + 1, 3, trie2Threshold, 50, 250}).Draw(rt, "permEvery")
+				c.Labelf("perm-batch-%d", every)
+			}
 			ft := trie2.NewEmpty(uint8(height), hashFn(posei))
 			fo := &oldTrie{db: memory.New(), posei: posei, height: uint8(height)}
 			fo.txn = fo.db.NewIndexedBatch()
@@ -361,12 +485,12 @@ func TestPropTrieRootIsFunctionOfSet(t *testing.T) {
 				if _, err := fo.tr.Put(&k, &v); err != nil {
 					c.Violation("old-trie-put", "fresh trie put: %v", err)
 				}
-				if i%3 == 2 {
+				if i%every == every-1 {
 					_, _ = ft.Hash()
 					_ = fo.tr.Commit()
 				}
 			}
-			want := ref.MPT(height, refHash(posei), model)
+			want := refRoot()
 			if r, _ := ft.Hash(); !r.Equal(&want) {
 				c.Violation("trie2-order-dependence", "fresh trie2 with permuted insertion order: %s != %s", r.String(), want.String())
 			}
@@ -422,11 +546,21 @@ func scratch() string {
 
 func TestPropChainStateRoot(t *testing.T) {
 	stats.Check(t, stats.Budget{Quick: 400, Thorough: 2500},
-		"generated chains (1-8 blocks, 4 protocol versions, state diffs consistent with the abstract state) stored on legacy and trie2 backends, memory or Pebble with restarts between blocks; every block is sealed with the REFERENCE state root so a disagreement shows as a rejected valid block; Finalise/Simulate roots are compared with the reference; non-trivial = chain has >= 3 blocks and contains a zero write, a same-value rewrite, a class replacement, a system-contract write or a CASM migration",
+		"generated chains (1-8 blocks, 4 protocol versions, state diffs consistent with the abstract state) stored on legacy and trie2 backends, memory or Pebble with restarts between blocks; 1 chain in 20 (2-6 blocks, half on Pebble) contains blocks that give ONE trie exactly n updates, n drawn around 100 (99, 100, 101, ... 300; thorough up to 1000): n slots of one contract, n contracts touched (bulk deploys / nonce bumps), n class-trie leaves (bulk Sierra declarations, migrations), overwrites/deletes of an existing large storage; never as last block, usually followed by a restart / new Blockchain object and by blocks touching the same tries; every block is sealed with the REFERENCE state root so a disagreement shows as a rejected valid block; Finalise/Simulate roots are compared with the reference; non-trivial = chain has >= 3 blocks and contains a zero write, a same-value rewrite, a class replacement, a system-contract write or a CASM migration, or a block above the threshold followed by more blocks",
 		func(rt *rapid.T, c *stats.Case) {
 			u := gen.NewUniverse(rt)
 			ch := gen.NewChain(u, gen.Opts{MinVersionIdx: rapid.IntRange(0, 3).Draw(rt, "minver")})
 			usePebble := rapid.IntRange(0, 3).Draw(rt, "pebble") == 0
+			// SIZE: one chain in twenty contains blocks that are large for one trie (large_test.go)
+			var plan *bigPlan
+			if gen.Uniform(rt, 20, "bigChain") == 0 {
+				plan = drawBigPlan(rt, u)
+				usePebble = rapid.Bool().Draw(rt, "bigPebble")
+				c.Label("big-chain")
+				if usePebble {
+					c.Label("big-chain-on-pebble")
+				}
+			}
 			var dirs []string
 			defer func() {
 				for _, d := range dirs {
@@ -448,10 +582,60 @@ func TestPropChainStateRoot(t *testing.T) {
 					n.DB.Close()
 				}
 			}()
-			nblocks := rapid.IntRange(1, 8).Draw(rt, "nblocks")
+			nblocks := 0
+			if plan != nil {
+				nblocks = plan.nblocks
+			} else {
+				nblocks = rapid.IntRange(1, 8).Draw(rt, "nblocks")
+			}
 			interesting := false
+			// per trie kind: index of the first block that gave that trie more than 100 updates, and what happened after it
+			crossedAt := map[string]int{}
+			crossedStorage := map[felt.Felt]int{} // contract -> first block that wrote more than 100 of its slots
+			prevLarge := false
 			for i := 0; i < nblocks; i++ {
-				b := ch.Next(rt)
+				var b *gen.Block
+				if plan != nil {
+					b = ch.Draw(rt)
+					plan.augment(rt, b, i)
+					ch.Blocks = append(ch.Blocks, b)
+				} else {
+					b = ch.Next(rt)
+				}
+				maxSlots, touched, classLeaves := diffSizes(b.SU.StateDiff)
+				for _, tk := range []struct {
+					name string
+					n    int
+				}{{"storage-trie", maxSlots}, {"contract-trie", touched}, {"class-trie", classLeaves}} {
+					if tk.n >= trie2Threshold-1 {
+						c.Labelf("block-updates-%s:%s", tk.name, sizeClass(tk.n))
+					}
+					if first, ok := crossedAt[tk.name]; ok && first < i && tk.n > 0 && tk.name != "storage-trie" {
+						c.Label("later-block-touches-" + tk.name + "-after>T")
+					}
+					if tk.n > trie2Threshold {
+						c.Label("block-updates-" + tk.name + ">T")
+						if _, ok := crossedAt[tk.name]; !ok {
+							crossedAt[tk.name] = i
+						}
+					}
+				}
+				for a, m := range b.SU.StateDiff.StorageDiffs {
+					first, ok := crossedStorage[a]
+					if ok && first < i && len(m) > 0 {
+						c.Label("later-block-touches-storage-trie-after>T")
+					}
+					if !ok && len(m) > trie2Threshold {
+						crossedStorage[a] = i
+					}
+				}
+				thisLarge := maxSlots > trie2Threshold || touched > trie2Threshold || classLeaves > trie2Threshold
+				if thisLarge {
+					c.Label("block-above-threshold")
+				}
+				// restart / new Blockchain object right after a large block
+				forceReopen := plan != nil && prevLarge && rapid.IntRange(0, 3).Draw(rt, "reopenAfterLarge") != 0
+				prevLarge = thisLarge
 				c.Fp("block %d v%s diff %s", i, b.B.ProtocolVersion, diffFp(b.SU.StateDiff))
 				c.Label("ver-" + b.B.ProtocolVersion)
 				for tag := range b.Tags {
@@ -480,8 +664,20 @@ func TestPropChainStateRoot(t *testing.T) {
 					c.Label("contract-records-without-storage-root")
 				}
 				for _, n := range nodes {
-					if usePebble && rapid.IntRange(0, 2).Draw(rt, "restart") == 0 {
+					restart := usePebble && rapid.IntRange(0, 2).Draw(rt, "restart") == 0
+					if forceReopen && !restart {
+						if usePebble && rapid.Bool().Draw(rt, "restartAfterLarge") {
+							restart = true
+						} else {
+							n.Reopen()
+							c.Label("new-blockchain-object-after-large-block")
+						}
+					}
+					if restart {
 						c.Label("restart")
+						if forceReopen {
+							c.Label("restart-after-large-block")
+						}
 						p := n.DB.(interface{ Path() string }).Path()
 						if err := n.DB.Close(); err != nil {
 							stats.HarnessError("close: %v", err)
@@ -495,7 +691,16 @@ func TestPropChainStateRoot(t *testing.T) {
 					}
 				}
 				// Finalise path: juno computes the root itself
+				var want felt.Felt
+				if plan != nil {
+					want = *b.SU.NewRoot // = b.Post.Commitment(version), just computed by augment (expensive for large states)
+				} else {
+					want = b.Post.Commitment(b.B.ProtocolVersion)
+				}
 				for _, n := range fin {
+					if forceReopen {
+						n.Reopen()
+					}
 					fb := cloneForFinalise(b, n)
 					sim, err := n.BC.Simulate(cloneForFinalise(b, n).B, cloneForFinalise(b, n).SU, b.Classes, nil)
 					_ = sim
@@ -505,7 +710,6 @@ func TestPropChainStateRoot(t *testing.T) {
 					if err := n.BC.Finalise(fb.B, fb.SU, b.Classes, nil); err != nil {
 						c.Violation("finalise-"+n.Backend(), "Finalise block %d: %v", i, err)
 					}
-					want := b.Post.Commitment(b.B.ProtocolVersion)
 					if !fb.B.GlobalStateRoot.Equal(&want) {
 						c.Violation("finalise-root-"+n.Backend(), "Finalise (%s) computed root %s, reference %s for block %d v%s diff %s",
 							n.Backend(), fb.B.GlobalStateRoot.String(), want.String(), i, b.B.ProtocolVersion, diffFp(b.SU.StateDiff))
@@ -515,7 +719,14 @@ func TestPropChainStateRoot(t *testing.T) {
 			if nblocks >= 3 && interesting {
 				c.NonTrivial("multi-block-with-structural-diff")
 			}
+			for _, tk := range []string{"storage-trie", "contract-trie", "class-trie"} {
+				if first, ok := crossedAt[tk]; ok && first < nblocks-1 {
+					c.NonTrivial("block-above-threshold-then-more-blocks")
+					c.Label("chain-continues-after-" + tk + ">T")
+				}
+			}
 			// commitments from the stored tries (read API) equal the reference too
+			wantContracts, wantClasses := ch.TipState().ContractsRoot(), ch.TipState().ClassesRoot()
 			for _, n := range nodes {
 				sr, closer, err := n.BC.HeadState()
 				if err != nil {
@@ -524,7 +735,7 @@ func TestPropChainStateRoot(t *testing.T) {
 				ct, err := sr.ContractTrie()
 				if err == nil {
 					h, herr := ct.Hash()
-					want := ch.TipState().ContractsRoot()
+					want := wantContracts
 					if herr != nil || !h.Equal(&want) {
 						c.Violation("contract-trie-root-"+n.Backend(), "%s contracts trie root %s (%v) != reference %s", n.Backend(), h.String(), herr, want.String())
 					}
@@ -532,7 +743,7 @@ func TestPropChainStateRoot(t *testing.T) {
 				kt, err := sr.ClassTrie()
 				if err == nil {
 					h, herr := kt.Hash()
-					want := ch.TipState().ClassesRoot()
+					want := wantClasses
 					if herr != nil || !h.Equal(&want) {
 						c.Violation("class-trie-root-"+n.Backend(), "%s classes trie root %s (%v) != reference %s", n.Backend(), h.String(), herr, want.String())
 					}
@@ -569,11 +780,58 @@ func diffFp(d *core.StateDiff) string { return gen.DiffString(d) }
 
 func TestPropTempTrieBackendsAgree(t *testing.T) {
 	stats.Check(t, stats.Budget{Quick: 300, Thorough: 5000},
-		"generated blocks (0-12 txs with events/messages) hashed with core.TrieBackend and core.DeprecatedTrieBackend; commitments must agree with each other and the transaction commitment with a reference height-64 MPT over independently computed leaves; non-trivial = block has >= 2 transactions and >= 1 event",
+		"generated blocks (0-12 txs with events/messages; 1 in 12 with 99..300 transactions+receipts or 99..300 events, around the 100-leaf parallel-hasher threshold of the temporary trie) hashed with core.TrieBackend and core.DeprecatedTrieBackend; commitments must agree with each other and the transaction commitment with a reference height-64 MPT over independently computed leaves; non-trivial = block has >= 2 transactions and >= 1 event",
 		func(rt *rapid.T, c *stats.Case) {
 			u := gen.NewUniverse(rt)
 			ch := gen.NewChain(u, gen.Opts{MaxTxs: 12, MinVersionIdx: rapid.IntRange(0, 3).Draw(rt, "minver")})
 			b := ch.Next(rt)
+			// SIZE: one block in twelve has a transaction/receipt count or an event count around the parallel-hasher
+			// threshold of the trie2-based temporary trie (> 100 leaves inserted before the single Hash call)
+			if gen.Uniform(rt, 12, "bigBlock") == 0 {
+				n := bulkSize(rt, "bigBlockN")
+				if rapid.Bool().Draw(rt, "manyEvents") {
+					c.Label("big-block:many-events")
+					if len(b.B.Transactions) == 0 {
+						tx := ch.DrawTx(rt, b.B.ProtocolVersion)
+						b.B.Transactions = append(b.B.Transactions, tx)
+						b.B.Receipts = append(b.B.Receipts, ch.DrawReceipt(rt, tx))
+					}
+					have := 0
+					for _, r := range b.B.Receipts {
+						have += len(r.Events)
+					}
+					for ; have < n; have++ {
+						r := b.B.Receipts[rapid.IntRange(0, len(b.B.Receipts)-1).Draw(rt, "evReceipt")]
+						r.Events = append(r.Events, ch.DrawEvent(rt))
+					}
+				} else {
+					c.Label("big-block:many-txs")
+					for len(b.B.Transactions) < n {
+						tx := ch.DrawTx(rt, b.B.ProtocolVersion)
+						b.B.Transactions = append(b.B.Transactions, tx)
+						b.B.Receipts = append(b.B.Receipts, ch.DrawReceipt(rt, tx))
+					}
+				}
+				evs := uint64(0)
+				for _, r := range b.B.Receipts {
+					evs += uint64(len(r.Events))
+				}
+				b.B.TransactionCount, b.B.EventCount = uint64(len(b.B.Transactions)), evs
+				b.B.EventsBloom = core.EventsBloom(b.B.Receipts)
+				gen.Rehash(b, u.Net)
+			}
+			if n := len(b.B.Transactions); n >= trie2Threshold-1 {
+				c.Label("tx-and-receipt-trie-leaves:" + sizeClass(n))
+				if n > trie2Threshold {
+					c.Label("tx-and-receipt-trie-leaves>T")
+				}
+			}
+			if n := int(b.B.EventCount); n >= trie2Threshold-1 {
+				c.Label("event-trie-leaves:" + sizeClass(n))
+				if n > trie2Threshold {
+					c.Label("event-trie-leaves>T")
+				}
+			}
 			c.Fp("%s %d", b.B.Hash.String(), len(b.B.Transactions))
 			h1, c1, err1 := core.BlockHash(b.B, b.SU.StateDiff, u.Net, nil, core.TrieBackend)
 			h2, c2, err2 := core.BlockHash(b.B, b.SU.StateDiff, u.Net, nil, core.DeprecatedTrieBackend)
